@@ -16,7 +16,7 @@ use serde_json::json;
 use std::collections::HashMap;
 
 pub const CLIB: &str = "(define-library (clib)
-  (export next (rename peek look) readg setn! (rename raw-step step) use-step (rename sa sb) (rename sb sa) (rename next advance) (rename peek look-too))
+  (export next (rename peek look) readg setn! (rename raw-step step) use-step (rename sa sb) (rename sb sa) (rename next advance) (rename peek look-too) boot-seen)
   (import (scheme base))
   (begin
     (define n 0)
@@ -29,7 +29,11 @@ pub const CLIB: &str = "(define-library (clib)
     (define (raw-step) 'raw-step)
     (define (use-step) (step))
     (define sa 'internal-sa)
-    (define sb 'internal-sb)))";
+    (define sb 'internal-sb)
+    (define boot 0)
+    (set! boot (+ boot 1))
+    (set! boot (+ boot 1))
+    (define boot-seen boot)))";
 
 pub const MLIB: &str = "(define-library (mlib)
   (export bump (rename helper mhelper))
@@ -68,9 +72,9 @@ fn libdefs() -> HashMap<&'static str, LibDef> {
     m.insert(
         "clib",
         LibDef {
-            exports: vec![("next", "next"), ("peek", "look"), ("readg", "readg"), ("setn!", "setn!"), ("raw-step", "step"), ("use-step", "use-step"), ("sa", "sb"), ("sb", "sa"), ("next", "advance"), ("peek", "look-too")],
+            exports: vec![("next", "next"), ("peek", "look"), ("readg", "readg"), ("setn!", "setn!"), ("raw-step", "step"), ("use-step", "use-step"), ("sa", "sb"), ("sb", "sa"), ("next", "advance"), ("peek", "look-too"), ("boot-seen", "boot-seen")],
             imports: vec![],
-            body: parse_all("(define n 0) (define (h) (set! n (+ n 1)) n) (define (next) (h)) (define (peek) n) (define (readg) g) (define (setn! v) (set! n v) n) (define (step) 'internal-step) (define (raw-step) 'raw-step) (define (use-step) (step)) (define sa 'internal-sa) (define sb 'internal-sb)"),
+            body: parse_all("(define n 0) (define (h) (set! n (+ n 1)) n) (define (next) (h)) (define (peek) n) (define (readg) g) (define (setn! v) (set! n v) n) (define (step) 'internal-step) (define (raw-step) 'raw-step) (define (use-step) (step)) (define sa 'internal-sa) (define sb 'internal-sb) (define boot 0) (set! boot (+ boot 1)) (set! boot (+ boot 1)) (define boot-seen boot)"),
         },
     );
     m.insert(
@@ -138,7 +142,7 @@ pub fn configs() -> Vec<Config> {
         out.push(Config {
             name: "P->L twice",
             import: "(import (scheme base) (only (clib) next readg) (rename (except (clib) readg) (next next2) (look look2) (setn! setn2!)))",
-            sets: vec![("clib", Some(vec![("next", "next"), ("readg", "readg")])), ("clib", Some(vec![("next", "next2"), ("look", "look2"), ("setn!", "setn2!"), ("step", "step"), ("use-step", "use-step"), ("sa", "sa"), ("sb", "sb"), ("advance", "advance"), ("look-too", "look-too")]))],
+            sets: vec![("clib", Some(vec![("next", "next"), ("readg", "readg")])), ("clib", Some(vec![("next", "next2"), ("look", "look2"), ("setn!", "setn2!"), ("step", "step"), ("use-step", "use-step"), ("sa", "sa"), ("sb", "sb"), ("advance", "advance"), ("look-too", "look-too"), ("boot-seen", "boot-seen")]))],
             more_imports: &[],
             file_supply,
         });
@@ -186,7 +190,7 @@ pub const OPS: &[&str] = &[
     "(define own 'importer-own)",
 ];
 
-pub const PROBES: &[&str] = &["h", "n", "g", "peek", "helper", "(step)", "(use-step)", "sa", "sb", "raw-step", "(readg)", "(look)", "(look2)", "(mhelper)", "(next)", "(bump)", "(next2)", "(look)", "(look-too)", "(advance)", "(getg)", "(own-of)", "(own-alias)", "own", "(look)"];
+pub const PROBES: &[&str] = &["h", "n", "g", "peek", "helper", "(step)", "(use-step)", "sa", "sb", "raw-step", "(readg)", "(look)", "(look2)", "(mhelper)", "(next)", "(bump)", "(next2)", "(look)", "(look-too)", "(advance)", "(getg)", "(own-of)", "(own-alias)", "own", "boot-seen", "boot", "(look)"];
 
 pub struct Sys {
     cfg: usize,
